@@ -184,13 +184,13 @@ func (x *Exec) structFieldValue(st *types.Struct, i int) Value {
 	}
 	idx := []Value{x.ts.BV(uint64(i), 64)}
 	return Struct{
-		x.mkStr(f.Name()),                 // Name
-		x.mkStr(pkg),                      // PkgPath
-		x.mkRType(f.Type()),               // Type
-		x.mkStr(st.Tag(i)),                // Tag
-		x.ts.BV(0, 64),                    // Offset
-		Slice{S: idx},                     // Index
-		x.ts.Bool(f.Embedded()),           // Anonymous
+		x.mkStr(f.Name()),       // Name
+		x.mkStr(pkg),            // PkgPath
+		x.mkRType(f.Type()),     // Type
+		x.mkStr(st.Tag(i)),      // Tag
+		x.ts.BV(0, 64),          // Offset
+		Slice{S: idx},           // Index
+		x.ts.Bool(f.Embedded()), // Anonymous
 	}
 }
 
